@@ -563,7 +563,7 @@ def parsePathOracle (s : String) : Option PathOracle :=
 
 /-- the model's decision, with the regexp engine answered from the oracle table; `none` if
     the model asks about a regex the table does not cover (its parse differs from the spec's) -/
-def c08decide (user : Bytes) (rules : List Bytes) (o : PathOracle) : Option Bool × Bool :=
+def c08decide (user : Bytes) (rules : List Bytes) (o : PathOracle) : Option Bool × Bool × Bool :=
   let specs := rules.map specRuleOf
   let table : List (Bytes × Char) := (specs.map (·.2)).zip o.bits
   let covered := (rules.map parseRule).all fun r => table.any (·.1 == r.regex)
@@ -572,13 +572,22 @@ def c08decide (user : Bytes) (rules : List Bytes) (o : PathOracle) : Option Bool
     | some (_, '0') => some false
     | _ => none
   let fs : FsOracle := { resolve := fun _ => o.clean, regular := fun _ => o.regular }
-  let modelAns := hasFilePermission fs m user rules []
+  let modelAns0 := hasFilePermission fs m user rules []
+  -- tie G: `User.iteratePaths` as translated from the working tree, on the same rules and oracle table, must give the
+  -- rule verdict of the model (run whenever the model gets as far as the rules)
+  let ext : Go.Ext := { parseFloat := fun _ => (0, none),
+                        reCompile := fun rx => (⟨rx, true⟩, if (m rx []).isNone then some (b!"error") else none),
+                        reMatchRaw := fun re _ => m re.src [] == some true }
+  let gen := (Gen.User.User.iteratePaths ext { Name := user, permissions := rules } (o.clean.getD []) READFILES).2.1
+  let reachesRules := !(user = Facts.scheduleUserBytes ∨ user = Facts.continuousUserBytes) ∧ o.clean.isSome ∧ o.regular
+  let modelAns := modelAns0
+  let genOk := !reachesRules || gen == modelAns0
   -- specification: last matching rule (spec syntax) is an allow, all compile, regular, resolved
   let specAns :=
     if user = Facts.scheduleUserBytes ∨ user = Facts.continuousUserBytes then true else
     o.clean.isSome && o.regular && !o.bits.contains 'E' &&
       (((specs.zip o.bits).filter (·.2 == '1')).getLast?.map (fun p => !p.1.1) == some true)
-  (if covered ∨ o.clean.isNone ∨ !o.regular then some modelAns else none, specAns)
+  (if covered ∨ o.clean.isNone ∨ !o.regular then some modelAns else none, specAns, genOk)
 
 def parseRulesArg (s : String) : Option (List Bytes) :=
   if s = "-" then some [] else (s.splitOn ",").mapM unhex
@@ -586,9 +595,9 @@ def parseRulesArg (s : String) : Option (List Bytes) :=
 def opC08Perm : List String → Res
   | [u, _path, rules, oracle] => match unhex u, parseRulesArg rules, parsePathOracle oracle with
     | some u, some rules, some o =>
-      let (mo, sp) := c08decide u rules o
+      let (mo, sp, genOk) := c08decide u rules o
       let render (b : Bool) := if rules.isEmpty then "nouser" else boolStr b
-      { m := match mo with | some b => render b | none => "model-asks-uncovered-regex", s := render sp,
+      { m := if !genOk then "TRANSLATED-ITERATEPATHS-DIFFERS-FROM-MODEL" else match mo with | some b => render b | none => "model-asks-uncovered-regex", s := render sp,
         t := joinWith "," ((if sp then ["allowed"] else ["denied"]) ++ (if o.clean.isNone then ["unresolved"] else [])
           ++ (if !o.regular ∧ o.clean.isSome then ["special"] else []) ++ (if o.bits.contains 'E' then ["badregex"] else [])
           ++ (if rules.any (fun r => (specRuleOf r).2.contains COLON) then ["colon-in-pattern"] else [])
@@ -610,11 +619,11 @@ def opC08CatCore (rules oracle : String) : Res :=
           b!"F:" ++ joinByte 47 (parts.drop (idx + 1))
         hexOf (joinByte 124 (sortBytes names))
       let mServed := servedBy fun o => (decide o).1 == some true
-      let sServed := servedBy fun o => (decide o).2
+      let sServed := servedBy fun o => (decide o).2.1
       let anyDenied (f : PathOracle → Bool) := os.any (fun o => !f o) ∨ os.isEmpty
       if rules.isEmpty then { m := "nouser", s := "nouser" } else
       { m := s!"served={mServed};warned={boolStr (anyDenied fun o => (decide o).1 == some true)}",
-        s := s!"served={sServed};warned={boolStr (anyDenied fun o => (decide o).2)}",
+        s := s!"served={sServed};warned={boolStr (anyDenied fun o => (decide o).2.1)}",
         t := joinWith "," ((if os.length > 1 then ["glob"] else []) ++ (if mServed ≠ "-" then ["served"] else ["nothing"])) }
     | none => bad
 
